@@ -58,6 +58,7 @@ def run_case(case):
     cop = make_biv(fam, th)
     ref = Ref(fam, th)
     sig = f'C06:{fam}'
+    r.hit(f'family:{fam}')
     TOL_AXIOM = TOL_AXIOM_BY_FAMILY[fam]
 
     def cdf(X):
@@ -167,7 +168,6 @@ def run_case(case):
     for u, v in P:
         r.state((fam, th, float(u), float(v)))
     r.nontriv(int(interior.sum()))
-    r.hit(f'family:{fam}')
     if (fam == 'gumbel' and th == 1.0):
         r.hit('branch:gumbel-theta-1')
     r.outcome(f'{fam}:max_ref_err<={10.0 ** np.ceil(np.log10(max(err.max(), 1e-18))):.0e}')
